@@ -5,8 +5,11 @@ package main
 import (
 	"fmt"
 	"go/ast"
+	"go/token"
 	"go/types"
 	"strings"
+
+	"golang.org/x/tools/go/ssa"
 )
 
 func init() {
@@ -164,6 +167,107 @@ func runC15(c *Ctx, r *Report) {
 	importRules(c, r, "C03", []string{"R-C03.2", "R-C03.3"}, "R-C15.7")
 	r.Doc("R-C15.8", "the loops that build the start set from the upper bounds process every bound")
 	loopsComplete(c, r, "R-C15.8", func(fn *Fn) bool { return rootNamed(fn, "Iterator") }, "upper bounds after the point where the loop stops are ignored: their causal past is not emitted")
+	r.Doc("R-C15.9", "the number of entries the traversal may take is either unlimited (−1, trimmed afterwards) or the requested amount itself — never a larger computed value")
+	{
+		it := p.FuncI("", "IPFSLog", "Iterator")
+		ncount := 0
+		visit := func(f func(ins ssa.Instruction)) {
+			// Iterator, its closures, and the helpers that only it calls
+			for _, g := range p.ssaGroup(p.SSAFunc(it)) {
+				allInstrs(g, true, f)
+			}
+		}
+		visit(func(ins ssa.Instruction) {
+			call, ok := ins.(*ssa.Call)
+			if !ok {
+				return
+			}
+			if f := calleeOf(call); f == nil || f.Name() != "traverse" || len(call.Call.Args) < 3 {
+				return
+			}
+			ncount++
+			bad := ""
+			var leaves func(v ssa.Value, depth int)
+			leaves = func(v ssa.Value, depth int) {
+				if depth > 8 {
+					bad = "a value the rule cannot trace"
+					return
+				}
+				switch x := v.(type) {
+				case *ssa.Phi:
+					for _, e := range x.Edges {
+						leaves(e, depth+1)
+					}
+				case *ssa.Const:
+					if x.Value == nil || x.Int64() != -1 {
+						if x.Value != nil && x.Int64() >= 0 {
+							return // a constant bound is not larger than itself; amounts are compared later
+						}
+						bad = "the constant " + x.String()
+					}
+				case *ssa.UnOp:
+					if x.Op == token.MUL {
+						// a load: of the Amount option (through its pointer) or of a local cell holding it
+						switch a := x.X.(type) {
+						case *ssa.Alloc, *ssa.FreeVar:
+							for _, st := range cellStores(a) {
+								leaves(st.Val, depth+1)
+							}
+							return
+						}
+						if f, _ := fieldOf(x.X); f != nil && f.Name() == "Amount" {
+							return
+						}
+						if inner, ok := x.X.(*ssa.UnOp); ok && inner.Op == token.MUL {
+							if f, _ := fieldOf(inner.X); f != nil && f.Name() == "Amount" {
+								return
+							}
+						}
+						bad = "a value loaded from " + x.X.String()
+						return
+					}
+					bad = "a computed value"
+				case *ssa.Parameter:
+					// a helper of Iterator: the count is what its call sites hand in
+					idx, found := -1, false
+					if x.Parent() != nil {
+						for i, pp := range x.Parent().Params {
+							if pp == x {
+								idx = i
+							}
+						}
+					}
+					for _, g := range p.ssaGroup(p.SSAFunc(it)) {
+						allInstrs(g, true, func(ins ssa.Instruction) {
+							if c2, ok := ins.(*ssa.Call); ok && c2.Call.StaticCallee() == x.Parent() && idx >= 0 && idx < len(c2.Call.Args) {
+								found = true
+								leaves(c2.Call.Args[idx], depth+1)
+							}
+						})
+					}
+					if !found {
+						bad = "a parameter the rule cannot trace to the amount"
+					}
+				case *ssa.Call:
+					name := "a call"
+					if cal := x.Call.StaticCallee(); cal != nil {
+						name = cal.Name() + "(…)"
+					} else if b, ok := x.Call.Value.(*ssa.Builtin); ok {
+						name = b.Name() + "(…)"
+					}
+					bad = "the result of " + name
+				case *ssa.BinOp:
+					bad = "the result of arithmetic (" + x.Op.String() + ")"
+				default:
+					bad = "a computed value"
+				}
+			}
+			leaves(call.Call.Args[2], 0)
+			r.Check(bad == "", "R-C15.9", r.Key("R-C15.9", it, "traverse-count", ""), call.Pos(), "the traversal count is −1 or the requested amount itself",
+				"the count handed to the traversal can be "+bad+" instead of the requested amount (or −1): with several starting entries more entries than requested are emitted")
+		})
+		r.Floor("R-C15.9", "traversals started by Iterator", ncount, 1)
+	}
 	headsField := p.Field("", "IPFSLog", "heads")
 	ltF, lteF := p.Field("iface", "IteratorOptions", "LT"), p.Field("iface", "IteratorOptions", "LTE")
 	nhs := 0
